@@ -31,6 +31,13 @@ def mk_frame(prior, asc, seed, wd):
         fr.add_noise(5.0)
     elif prior == 'signal':
         fr.add_signal(stg.constant_path(fr.get_frequency(4), 0.5), 2.0, stg.gaussian_f_profile(3.0))
+        # ... and the frame under test is created FROM that array (C-contiguous float64), which the caller keeps
+        arr = np.array(fr.data, dtype=float, order='C')
+        fr = stg.Frame.from_data(DF, DT, fch1, asc, arr, seed=seed)
+        fr._c06_src = (arr, arr.copy())
+    elif prior == 'zeros':
+        # empty, with negative zeros here and there ("bit-for-bit untouched" includes their sign)
+        fr.data[::2, 1::2] = -0.0
     elif prior == 'fil':
         fr.add_noise(5.0)
         fn = os.path.join(wd, 'c06_%s_%d.fil' % (asc, seed))
@@ -229,8 +236,13 @@ def inject(fr, step, V, wd, check=True, ctrl_noise=None):
         j = int(np.nonzero(np.any(sig[:, out] != 0, axis=0))[0][0])
         V('signal_outside_range', '%s: returned signal is non-zero in column %d (of the %d columns wholly outside the requested range %s)'
           % (tag, int(np.nonzero(out)[0][j]), int(out.sum()), rng_))
-    if not np.array_equal(after[:, out], before[:, out]):
-        V('touched_outside_range', '%s: data outside the requested range changed' % tag)
+    if np.ascontiguousarray(after[:, out]).tobytes() != np.ascontiguousarray(before[:, out]).tobytes():
+        # bit for bit: also the sign of a zero
+        same_values = np.array_equal(after[:, out], before[:, out])
+        V('touched_outside_range', '%s: data outside the requested range changed%s' % (tag, ' (bit pattern only: the sign of zeros)' if same_values else ''))
+    src = getattr(fr, '_c06_src', None)
+    if src is not None and not np.array_equal(src[0], src[1]):
+        V('source_array_modified', '%s: the array the frame was created from (still held by the caller) was written into' % tag)
     if rng_ is not None and ins.any():
         twin = mk_frame('zeros', fr.ascending, 1, wd)
         try:
